@@ -180,16 +180,27 @@ def check(R, F):
 
     # ---- (c)
     ss = F.fn('server::rrl::Rrl::should_slip')
-    rows = {}
+    # decided by the linear engine, whatever form the three-way test takes (if / else-if chain, match on the integer):
+    # `false` is returned only with slip == 0, `true` only with slip == 1, and the random draw happens only with slip >= 2
+    from qv.bounds import Analyzer, eq as eq_, le, lin
+    from rules import e5
+    A = Analyzer(ss, F, e5.make_summary(F))
+    SLIP = lin('P:(*_1).params.slip')
+    rows = {'false': [], 'true': []}
     for b, blk in enumerate(ss.blocks):
-        for st in blk['stmts']:
-            if st['k'] == 'assign' and not st['lhs']['p'] and st['lhs']['l'] == 0 and st['rv']['k'] == 'use' and st['rv']['op']['k'] == 'const':
-                rows[const_name(st['rv']['op'])] = paths.dom_guards(ss, b, variants=False)
-    R.require(any(re.match(r'^Eq\(arg1\.params\.slip,0_usize\) not in \[0\]$', x) for x in rows.get('false', [])) and len(rows.get('false', [])) == 1, 'should-slip', 'server::rrl::Rrl::should_slip|zero-never', ss.where(), 'slip == 0 -> false', 'should_slip does not return false exactly under slip == 0: %s' % rows.get('false'))
-    R.require(any(re.match(r'^Eq\(arg1\.params\.slip,1_usize\) not in \[0\]$', x) for x in rows.get('true', [])) and any(re.match(r'^Eq\(arg1\.params\.slip,0_usize\) in \[0\]$', x) for x in rows.get('true', [])), 'should-slip', 'server::rrl::Rrl::should_slip|one-always', ss.where(), 'slip == 1 -> true', 'should_slip does not return true under slip == 1: %s' % rows.get('true'))
+        for i, st in enumerate(blk['stmts']):
+            if not blk['cleanup'] and st['k'] == 'assign' and not st['lhs']['p'] and st['lhs']['l'] == 0 and st['rv']['k'] == 'use' and st['rv']['op']['k'] == 'const':
+                rows.setdefault(const_name(st['rv']['op']), []).append((b, i))
+    okf = len(rows['false']) >= 1 and all(A.prove(b, i, eq_(SLIP, lin()))[0] for b, i in rows['false'])
+    R.require(okf, 'should-slip', 'server::rrl::Rrl::should_slip|zero-never', ss.where(), 'slip == 0 -> false', 'should_slip returns the constant false on a path on which slip == 0 is not implied')
+    okt = len(rows['true']) >= 1 and all(A.prove(b, i, eq_(SLIP, lin(c=1)))[0] for b, i in rows['true'])
+    R.require(okt, 'should-slip', 'server::rrl::Rrl::should_slip|one-always', ss.where(), 'slip == 1 -> true', 'should_slip returns the constant true on a path on which slip == 1 is not implied')
+    draws = [b for b, t in ss.calls() if 'gen_range' in callee_name(t)]
+    okd = len(draws) == 1 and A.prove(draws[0], None, [le(lin(c=2), SLIP)])[0]
+    R.require(okd, 'should-slip', 'server::rrl::Rrl::should_slip|draw-only-above-one', ss.where(draws[0]) if draws else ss.where(), 'the random draw only with slip >= 2', 'the random draw is reachable with slip < 2')
     gr = calls_in(ss, 'gen_range')
     R.require(len([1 for b, t in ss.calls() if 'gen_range' in callee_name(t)]) == 1, 'should-slip', 'server::rrl::Rrl::should_slip|random-otherwise', ss.where(), 'random 1-in-slip otherwise', 'should_slip no longer draws from 0..slip otherwise')
-    R.floor('should-slip', 3)
+    R.floor('should-slip', 4)
 
     # ---- (d) action arms
     lim = None
